@@ -745,6 +745,7 @@ func c16Run(c *fw.Ctx) {
 	c16RunE2E(c)
 	c16RunE2EAuth(c)
 	c16RunProviders(c)
+	c16RunGroupCache(c)
 	c.Res.Bound = "2-caller scenarios: all interleavings; 3-caller scenarios: preemption bound 3 (quick) / unbounded (thorough); e2e/*: all interleavings of two whole requests at lock and back-channel granularity, preemption bound 1-2 at statement granularity"
 }
 
@@ -769,7 +770,7 @@ func init() {
 			"threads = 2-3 callers x 1-2 calls over colliding and non-colliding subjects/endpoints; choice points = next thread at every mutex/WaitGroup operation and inside the provider call, and the call's outcome; " +
 			"oracle = interval model (DESIGN.md A.4): executions of one subject disjoint, a merged caller's result comes from an overlapping execution of the same endpoint and subject, none after the leader returned, leader told the number of joiners, no deadlock, merged caller's session fields equal the leader's; " +
 			"e2e/*: two whole requests through the REAL proxy (environment -> LoadConfig -> New -> logging handler) as scheduler threads, authenticator answered in memory inside the calling thread (a scheduling point per call), real loopback backends, in the statement-granularity scenarios a scheduling point before every statement of oauthproxy.go; differential oracle: every request ends exactly as it ends when it runs alone; e2e-auth/*: the same for the REAL authenticator (NewAuthenticatorMux -> timeout handler -> logging handler, scripted IdP over TLS, every IdP call a scheduling point), plus: every state-changing IdP call made when the requests run alone is made here too; e2e requests whose handler panics die like under net/http (recovered) while the others go on, so a caller left waiting for ever is seen as a deadlock; e2e/one-session-twice-authenticator-unreachable: the back channel fails at connection level; " +
-			"provider-auth/*: the authenticator's wrapper around the REAL GoogleProvider / OktaProvider (endpoints at the scripted IdP, fresh per execution): two threads make the same call {RefreshSessionIfNeeded, ValidateSessionState, Revoke} for two different users (one with good tokens, one with refused ones) whose sessions {have, lack} a refresh token; each ends as when calling alone; " +
+			"provider-auth/*: the authenticator's wrapper around the REAL GoogleProvider / OktaProvider (endpoints at the scripted IdP, fresh per execution): two threads make the same call {RefreshSessionIfNeeded, ValidateSessionState, Revoke} for two different users (one with good tokens, one with refused ones) whose sessions {have, lack} a refresh token, and for two copies of ONE login (same refresh token, different access tokens); each ends as when calling alone, and the identity provider is never working on two identical requests (endpoint, token) at the same moment (also checked in e2e-auth/*); provider-auth/group-cache/*: wrapper -> real GroupCache -> scripted directory, the cache filled, the virtual clock moved on by {0, a quarter, three quarters, more than} the cache TTL, then the same question from two threads (preemption bound 2): the directory is never working on two identical questions at once; " +
 			"distinct_nontrivial = distinct (who ran / who merged / results) signatures among executions in which at least one call was merged",
 		Assumptions: []string{
 			"sequentially consistent memory; unsynchronised accesses are looked for by the separate free-running -race pass",
